@@ -34,6 +34,9 @@ CHECKS["C10"] = ("property-based testing (rapid) in an isolated worker process: 
 CHECKS["C06"] = ("property-based testing (rapid): generated constant-expression trees x placement sites, three-way differential",
          "Constant-expression trees over abstract/concrete literals and named constants are placed at eleven kinds of site; the value observed by executing the compiled program (independent SPIR-V interpreter, GLSL interpreter as second opinion) must equal the value of an independent WGSL const-evaluator, fully concrete trees must agree with their run-time twin (leaves loaded from a buffer), and expressions WGSL makes an error (integer division by zero, unrepresentable value) must be rejected. Exploration only.",
          "Trusted: verif/internal/wref const-evaluation (abstract ints in 64 bits, floats in binary64, WGSL conversion rank); float results compared with tolerance; concrete overflow, over-wide shifts, cancellation-sensitive float sums are not judged.", "DESIGN.md §4 C06")
+CHECKS["C15"] = ("property-based testing (rapid): hostile data and unguarded indices vs trapping interpreters of the emitted code",
+         "Generated compute programs biased to the hardened constructs (integer division/remainder by zero and INT_MIN/-1, negation/abs of INT_MIN, float->int of infinite/out-of-range values, reads of uninitialised variables, unguarded dynamic indices from 32-bit boundary values) are compiled with each backend's protective options (SPIR-V defaults; HLSL RestrictIndexing; MSL restrict / read-zero-skip-write, enabled by checks/c15/ENABLE_MSL; GLSL zero-init only) and executed by interpreters that trap on any out-of-object access and report any use of an undefined value; results must equal the WGSL-defined values under the policy. Exploration only.",
+         "Trusted: target interpreters' undefined-behaviour rules (verif/internal/spv, verif/internal/ctext); restrict accepts either clamping convention for negative indices.", "DESIGN.md §4 C15")
 PENDING = {}  # filled below
 
 def main():
